@@ -728,6 +728,14 @@ pub fn replay<P: Prop>(p: &P, rf: &ReplayFile, path: &str) -> i32 {
         Verdict::Fail(f) => {
             println!("failure: [{}] {}", f.signature, f.what);
             println!("{}", serde_json::to_string_pretty(&f.details).unwrap_or_default());
+            // campaign post-processing (tools/fuzz_c01.sh): an artifact whose failure is a listed
+            // known finding is reported as such, exactly as the generated search does
+            if std::env::var("VP_REPLAY_KNOWN").is_ok() {
+                if let Some(k) = load_known(p.id()).iter().find(|k| k.status == "known" && sig_matches(&k.signature, &f.signature)) {
+                    println!("KNOWN-FINDING: property={} {} ({})", p.id(), k.id, f.signature);
+                    return 0;
+                }
+            }
             println!("VIOLATION property={} replay={}", p.id(), path);
             1
         }
